@@ -283,3 +283,55 @@ func runSeeds(repo, verifDir, prop string) map[string]interface{} {
 	fmt.Printf("   seeded changes concerning %s: reported %d/%d, skipped %d\n", prop, reported, total, skipped)
 	return map[string]interface{}{"reported": fmt.Sprintf("%d/%d", reported, total), "skipped": skipped, "outcomes": outs}
 }
+
+// runBenign applies every behaviour-preserving refactoring under benign/ (written by independent sub-agents, each verified
+// against the repository's suite) to a throw-away copy of the current tree and expects the property's rules to stay silent.
+func runBenign(repo, verifDir, prop string) map[string]interface{} {
+	patches, _ := filepath.Glob(filepath.Join(verifDir, "benign", "*.diff"))
+	sort.Strings(patches)
+	silent, total, skipped := 0, 0, 0
+	var alarms []string
+	for _, pf := range patches {
+		tmp, err := os.MkdirTemp("", "gochk-benign-")
+		if err != nil {
+			continue
+		}
+		func() {
+			defer os.RemoveAll(tmp)
+			if out, err := exec.Command("cp", "-r", repo+"/.", tmp).CombinedOutput(); err != nil {
+				_ = out
+				skipped++
+				return
+			}
+			os.RemoveAll(filepath.Join(tmp, ".git"))
+			ap := exec.Command("git", "apply", "--unsafe-paths", "--directory="+tmp, pf)
+			ap.Dir = tmp
+			if _, err := ap.CombinedOutput(); err != nil {
+				skipped++
+				return
+			}
+			w, err := LoadWorld(tmp, nil, nil)
+			if err != nil {
+				skipped++
+				return
+			}
+			rep := runProp(w, prop)
+			rep.finish(nil)
+			total++
+			fired := map[string]bool{}
+			for _, ob := range rep.Obls {
+				if ob.Status == stViolated || ob.Status == stUndecided {
+					fired[ob.Rule] = true
+				}
+			}
+			if len(fired) == 0 {
+				silent++
+			} else {
+				alarms = append(alarms, filepath.Base(pf)+": "+strings.Join(sortedKeys(fired), ","))
+				fmt.Printf("   benign refactoring %s raises %v under %s\n", filepath.Base(pf), sortedKeys(fired), prop)
+			}
+		}()
+	}
+	fmt.Printf("   benign refactorings under %s: silent %d/%d, skipped %d\n", prop, silent, total, skipped)
+	return map[string]interface{}{"silent": fmt.Sprintf("%d/%d", silent, total), "skipped": skipped, "false_alarms": alarms}
+}
